@@ -167,8 +167,26 @@ class C06Cards(Monitor):
                         own = None
                     if own is None or cs != own or not all(cs):
                         self.exact = False
-                        if any(c and c not in (own or []) and c not in s.deck_cards for c in cs):
-                            self.clean = False
+                        # the cards that are new to the hand: every card already held accounts for one
+                        # mention; a new card the dealable cards do not cover (foreign, in play, or named
+                        # once more than they hold it) draws the warning - the caller's choice from then
+                        # on; that it does warn for a repeated card is checked after the operation (F23)
+                        fresh = [c for c in cs if c]
+                        for c in own or []:
+                            if c in fresh:
+                                fresh.remove(c)
+                        try:
+                            pool = list(s.get_dealable_cards(len(fresh)))
+                        except Exception:  # noqa: BLE001
+                            pool = list(s.deck_cards)
+                        dealable = set(pool)
+                        for c in fresh:
+                            if c in pool:
+                                pool.remove(c)
+                            else:
+                                self.clean = False
+                                if c in dealable:
+                                    self.repeat = True
                     return
                 deck = list(s.deck_cards)
                 try:
@@ -479,14 +497,8 @@ class C02Award(Monitor):
         self.snap = None
         self.won = None
 
-    def _snapshot(self, s: State):
-        n = s.player_count
-        live = [i for i in range(n) if s.statuses[i]]
-        # bets were already increased by the first push when after_log runs: reconstruct
-        contrib = [-s.payoffs[i] for i in range(n)]
-        ante = [s.get_effective_ante(i) for i in range(n)]
-        untrim = not s.ante_trimming_status
-        level = [contrib[i] - (ante[i] if untrim else 0) for i in range(n)]
+    def _keys(self, s: State, live):
+        """the strength of every live player's hand per board and hand type, by the rules (pyspec)"""
         boards = [list(s.get_board_cards(b)) for b in range(s.board_count)]
         types = [t.__name__ for t in s.hand_types]
         keys = {}
@@ -507,6 +519,19 @@ class C02Award(Monitor):
                             keys[i, b, k] = pyspec.best_key(tn, up, bc)
                     except Exception:  # noqa: BLE001
                         keys[i, b, k] = '?'
+        return keys
+
+    def _snapshot(self, s: State):
+        n = s.player_count
+        live = [i for i in range(n) if s.statuses[i]]
+        # bets were already increased by the first push when after_log runs: reconstruct
+        contrib = [-s.payoffs[i] for i in range(n)]
+        ante = [s.get_effective_ante(i) for i in range(n)]
+        untrim = not s.ante_trimming_status
+        level = [contrib[i] - (ante[i] if untrim else 0) for i in range(n)]
+        boards = [list(s.get_board_cards(b)) for b in range(s.board_count)]
+        types = [t.__name__ for t in s.hand_types]
+        keys = self._keys(s, live)
         self.snap = dict(n=n, live=live, contrib=contrib, level=level, ante=ante, untrim=untrim,
                          boards=len(boards), types=types, keys=keys,
                          pots=[(p.raked_amount, p.unraked_amount + 0, tuple(p.player_indices)) for p in s._pots])
@@ -530,6 +555,10 @@ class C02Award(Monitor):
 
     def after_log(self, state, operation):
         n = type(operation).__name__
+        if n == 'HoleCardsShowingOrMucking' and self.snap is not None:
+            # a voluntary show between two pushes may table other cards than the ones held: the pots
+            # still to be pushed go to the best hands as they are now
+            self.snap['keys'] = self._keys(state, self.snap['live'])
         if n != 'ChipsPushing':
             return
         first = self.snap is None
